@@ -96,7 +96,7 @@ impl Lexer {
     /// tab, or comma. Newlines are not considered whitespace as it is a
     /// token in the lexer.
     fn is_ws(ch: char) -> bool {
-        ch == ' ' || ch == '\t' || ch == ','
+        ch == ' ' || ch == '\t' || ch == ',' || ch == '\r'
     }
 
     /// Check if the given character is a character usable in a symbol.
@@ -258,8 +258,21 @@ impl Lexer {
 impl Iterator for Lexer {
     type Item = Result<Token, LexError>;
 
-    #[allow(clippy::too_many_lines)]
     fn next(&mut self) -> Option<Self::Item> {
+        let item = self.next_token();
+        // A broken string or character literal makes the rest of its line meaningless
+        if let Some(Err(LexError::InvalidString(..))) = item {
+            while self.current().is_some_and(|ch| ch != '\n') {
+                self.consume_char();
+            }
+        }
+        item
+    }
+}
+
+impl Lexer {
+    #[allow(clippy::too_many_lines)]
+    fn next_token(&mut self) -> Option<Result<Token, LexError>> {
         self.skip_ws();
 
         // TODO(rajan): ensure that we are consistent with whether the tokens are included or not in the Token representation
@@ -319,7 +332,7 @@ impl Iterator for Lexer {
                 self.consume_char();
 
                 if dir_str == "." {
-                    return self.next();
+                    return self.next_token();
                 }
 
                 Some(Token::new(
@@ -463,7 +476,16 @@ impl Iterator for Lexer {
                 // If the first character is not a symbol char -> error
                 if let Some(current) = self.current() {
                     if !Self::is_symbol_item(current) {
-                        return None;
+                        // A character that cannot start any token: report it and keep
+                        // lexing after it (the rest of the file must not be lost)
+                        let pos = self.get_range();
+                        self.consume_char();
+                        return Some(Err(LexError::UnexpectedToken(Box::new(Token::new(
+                            TokenType::Symbol(current.to_string()),
+                            current.to_string(),
+                            pos,
+                            self.source_id,
+                        )))));
                     }
                 }
 
